@@ -303,6 +303,31 @@ func solveAll(vcs []*VC, dir string, workers, timeoutS, seed int, keepQueries bo
 	}
 	close(ch)
 	wg.Wait()
+	// phase 3: what is still undecided (typically: a timeout caused by the load of the parallel phases)
+	// is tried once more, one obligation at a time, with three times the time limit. Canaries are
+	// left alone (an undecided canary is not reported).
+	for _, j := range jobs {
+		if j.r.Status != "unknown" || j.o.ExpectFail {
+			continue
+		}
+		q := j.vc.query(j.o)
+		name := fmt.Sprintf("%s.%d.retry", sanitize(j.o.Func), j.o.ID)
+		for _, s := range solvers {
+			a, rest, el := runSolver(s, dir, name, q, 3*timeoutS, false, seed)
+			j.r.Seconds += el
+			if a == "unsat" {
+				j.r.Status, j.r.Solver, j.r.Answer = "discharged", s.name+"(retry)", a
+				break
+			}
+			if a == "sat" {
+				j.r.Status, j.r.Solver, j.r.Answer = "failed", s.name+"(retry)", a
+				_, m, _ := runSolver(s, dir, name+".model", q, 3*timeoutS, true, seed)
+				j.r.Model = m
+				_ = rest
+				break
+			}
+		}
+	}
 	// reachability probes: a return that cannot be reached is not a failure by itself (the precondition
 	// may exclude it), but more unreachable returns than the contract allows (`unreachable N`) means
 	// that part of the function is verified vacuously
